@@ -327,6 +327,83 @@ func runC02(c *Ctx) {
 		}
 	}
 
+	// the restore closure ignores a record as stale only if its round is not newer
+	var restore *ssa.Function
+	for _, a := range newDB.AnonFuncs {
+		if len(a.Params) == 1 {
+			restore = a
+		}
+	}
+	if restore == nil {
+		c.Undecided("consensus/ucon.NewVoteDB$1#stale-record-test", newDB.Pos(), "the restore closure was not found")
+	} else {
+		verifySig := w.FuncObj(uconPkg, "", "VerifySignature")
+		isRoundCmp := func(v ssa.Value) bool {
+			cc, ok := stripConv(v).(*ssa.Call)
+			if !ok || calleeObj(cc) == nil || calleeObj(cc).Name() != "Cmp" {
+				return false
+			}
+			rf, _ := loadedField(stripConv(callRecv(cc)))
+			af, _ := loadedField(stripConv(callArgs(cc)[0]))
+			return rf != nil && rf.Name() == "round" && af != nil && af.Name() == "Round"
+		}
+		nIgnore, bad := 0, 0
+		okEnum := enumPaths(restore, 5000, func(pr PathResult) {
+			// does the path write the mark table?
+			writes := false
+			sigOK, haveRound := false, false
+			atoms := atomsOf(pr.Facts)
+			for _, fw := range fieldWrites(restore) {
+				if fw.Field == markF && pr.Blocks[fw.Instr.Block()] {
+					writes = true
+				}
+			}
+			for _, a := range atoms {
+				if a.Kind == "true" && a.Truth {
+					if cc, ok := stripConv(a.X).(*ssa.Call); ok && sameFunc(calleeObj(cc), verifySig) {
+						sigOK = true
+					}
+				}
+				if a.Kind == "isnil" && !a.Truth {
+					if f, _ := loadedField(stripConv(a.X)); f != nil && f.Name() == "round" {
+						haveRound = true
+					}
+				}
+			}
+			if writes || !sigOK || !haveRound {
+				return
+			}
+			nIgnore++
+			// the record is ignored: the path must establish round(v) >= round(record)
+			notNewer := false
+			for _, a := range atoms {
+				if a.Kind == "cmp" && isRoundCmp(a.X) {
+					op := a.Op
+					if !a.Truth {
+						op = negateCmp(op)
+					}
+					if n, isC := constInt(a.Y); isC && n == 0 && (op == token.GTR || op == token.GEQ) {
+						notNewer = true
+					}
+				}
+				if a.Kind == "eq" && a.Truth && isRoundCmp(a.X) {
+					if n, isC := constInt(a.Y); isC && n == 0 {
+						notNewer = true
+					}
+				}
+			}
+			if !notNewer {
+				bad++
+			}
+		})
+		if !okEnum {
+			c.Undecided("consensus/ucon.NewVoteDB$1#stale-record-test", restore.Pos(), "the restore closure could not be enumerated (loop or too many paths)")
+		} else {
+			c.sites += nIgnore
+			c.Check("consensus/ucon.NewVoteDB$1#stale-record-test", restore.Pos(), bad == 0 && nIgnore > 0, ifelse(bad == 0, fmt.Sprintf("all %d paths that ignore a verified record establish that its round is not newer than the restored one", nIgnore), fmt.Sprintf("%d of %d paths ignore a verified record without comparing rounds in its favour: a record of a NEWER round (with a lower round index) is dropped, the restored context stays behind, the next context update wipes the marks and the validator signs that kind again", bad, nIgnore)))
+		}
+	}
+
 	// ------------------------------------------------------------ S5
 	c.Rule("C02.S5", "GATE", "the once-only latches precommitted / certificated are set to true only on the nil edge of the corresponding vote call")
 	c.Min(2)
